@@ -18,6 +18,7 @@ import itertools
 import json
 
 from common import BuildBroken
+import access as X
 from props.c17 import Enc, ref_match, domain, describe, rebuild, mk_api
 
 
@@ -135,7 +136,7 @@ def run_history(evs, enc):
     asyncio.set_event_loop(loop)
     try:
         api = mk_api()
-        api._uart = StubUart()
+        X.aset(api, "uart", StubUart())
         ids, kinds, pats_of = {}, {}, {}
         futs, tasks, reqs = {}, {}, {}
         by_task = {}
